@@ -42,6 +42,12 @@ CHECKS = {
         "path with a primary label built from a node's own range; no backend is reachable except through analyze()'s Ok; "
         "the conditions guarding each of the 53 diagnostics equal the inventory confirmed against the reference (boundary "
         "operators, inclusive ranges, matched shapes).", ref="7/C08"),
+ "C10": dict(level="other", technique="compile witnesses (rustc/clang/Python ast as type checkers) over the corpus + Err-propagation and panic-site inventory rules on the source",
+   text="Partly claimed: every corpus description's emitted Rust type-checks under forbid(unsafe_code), the emitted Python "
+        "parses with all names bound, the emitted C++ passes clang -fsyntax-only; generator panics while producing the "
+        "subject are reported; parser helpers propagate errors as values; the panic-capable sites of parser/analyzer/ast are "
+        "the confirmed inventory. 'No stage panics on ANY input' is not decidable by this family and is not claimed.",
+   ref="7/C10"),
 }
 NOT_APPLICABLE = {
  "C19": "Java backend: no Java front-end to the abstract interpreter can be built and validated in this sandbox "
